@@ -107,6 +107,24 @@ def grid_cases(r, quick):
             kw["sig_count"] = 2
             kw["sigs"] = [(v, b"xyz")]
             out.append(("grid:sig.type=%s" % (v.hex() if isinstance(v, Raw) else v), zckref.build(**kw)))
+        # two and three signatures of which the first claims more bytes than the header has left (the walk over the section then
+        # continues outside the header)
+        for v in list(GRID) + [40, 300, 5000, 70000, 1 << 20]:
+            for cnt in (2, 3):
+                kw = base_kw(r, 2, 0, 0)
+                kw["sig_count"] = cnt
+                kw["sigs"] = [(0, (v, b"xyz")), (1, b"abc")] + ([(2, b"")] if cnt == 3 else [])
+                out.append(("grid:sig.first-size=%s,count=%d" % (v.hex() if isinstance(v, Raw) else v, cnt), zckref.build(**kw)))
+        # chunks "stored as they are" (all-zero chunk checksum, as the format document allows under the uncompressed-checksum flag) whose
+        # declared uncompressed size is not their stored size
+        for comp in (0, 2):
+            for flags in (4, 0, 6):
+                for grow in (0, 1, 4080, 1 << 20, 1 << 28):
+                    kw = base_kw(r, 3, comp, flags)
+                    k_ = r.randrange(1, len(kw["chunks"]))
+                    d_, u_, cl_, ln_ = kw["chunks"][k_]
+                    kw["chunks"][k_] = (bytes(len(d_)), u_, cl_, cl_ + grow)
+                    out.append(("grid:stored-as-is:comp%d:flags%d:+%d" % (comp, flags, grow), zckref.build(**kw)))
         # hash types 0..5 in both places, flag 4 with short index
         for t in range(6):
             kw = base_kw(r, 2, 0, 0)
